@@ -40,12 +40,19 @@ def gen(data: bytes):
     cls = tp.pick(["MG", "SMG", "CRG", "SCRG", "SMG", "SCRG", "SCRG"])
     m = S.gen_model(tp, cls, nmax=10, nmin=0, none_parity=50, wide=True,
                     p_role=110, p_change=170, p_atom=180, p_bond=110)
-    return {"a": S.shuffled_recipe(tp, m)}
+    case = {"a": S.shuffled_recipe(tp, m), "warm": tp.pick([0, 0, 1, 3])}
+    if m.atoms and tp.chance(100):
+        # serialise, rename in place, serialise the same object again
+        case["then_relabel"] = [[a, b] for a, b in
+                                S.renaming(tp, m.atoms).items()]
+    return case
 
 
 def shrink(case):
     for cand in rc.shrink_candidates(case["a"], strict=False):
         yield {"a": cand}
+    if "then_relabel" in case or case.get("warm"):
+        yield {"a": case["a"]}
 
 
 def feature_labels(r):
@@ -68,9 +75,29 @@ def check_case(ctx, case):
     ma = rc.require_valid(case["a"], strict=False)
     cls = ma.cls
     g = rc.build(case["a"])
+    from vp import ops as O
+    with guard(f"C15/{cls}/read-only-use-before"):
+        O.pre_use(g, case.get("warm", 0))
+    _round_trip(ctx, case, cls, g)
+    mp = case.get("then_relabel")
+    if mp:
+        mp = {a: b for a, b in mp if a in ma.atoms}
+        if len(set(mp.values())) != len(mp) or (
+                set(mp.values()) - set(mp)) & set(ma.atoms):
+            raise HarnessError("then_relabel: not an injective renaming")
+        with guard(f"C15/{cls}/relabel-in-place"):
+            g.relabel_atoms(dict(mp), copy=False)
+        want = ma.relabel(mp).snapshot()
+        d = snap_diff(snapshot(g, f"C15/{cls}/relabelled"), want, "exact")
+        if d:
+            return          # C11's business, not a JSON matter
+        _round_trip(ctx, case, cls, g, "second-")
+
+
+def _round_trip(ctx, case, cls, g, stage=""):
     s0 = snapshot(g, f"C15/{cls}/source")
     from stereomolgraph.experimental import JSONHandler
-    with guard(f"C15/{cls}/serialize"):
+    with guard(f"C15/{cls}/{stage}serialize"):
         text = JSONHandler.json_serialize(g)
     try:
         json.loads(text)
@@ -91,7 +118,7 @@ def check_case(ctx, case):
         kind = diff_kind(d)
         if kind == "bond-attributes" or d.startswith("role of bond"):
             kind = "bond-roles"
-        raise Violation(f"C15/{cls}/round-trip-differs/{kind}", d)
+        raise Violation(f"C15/{cls}/{stage}round-trip-differs/{kind}", d)
     with guard(f"C15/{cls}/eq"):
         e = (h == g) and (g == h)
     if not e:
